@@ -42,6 +42,9 @@ pub(crate) static mut CUT: bool = false;
 pub(crate) fn nocut() -> bool { std::env::var("VERIF_NOCUT").is_ok() }
 #[cfg(not(test))]
 pub(crate) fn nocut() -> bool { false }
+/// weak-frame fallback of the loop-cut rewriter: a function local assigned by a cut loop body that the loop
+/// spec does not declare is set to an arbitrary value of its type
+pub(crate) fn havoc_local<T: kani::Arbitrary>(t: &mut T) { *t = kani::any(); }
 pub(crate) fn cut_on() { unsafe { CUT = true; } }
 pub(crate) fn cut_active() -> bool { let c = unsafe { CUT }; c && !nocut() }
 
